@@ -35,15 +35,23 @@ RULE = ("exhaustive: every subset of failing (realization, unperturbed | perturb
         "{mean, stddev} x {NaN in the first objective, NaN in another objective/constraint column} (for the larger shapes "
         "these three choices rotate with the case index); plus sampled ensembles with R <= 8, P <= 6, 1..3 variables, "
         "unset / too large thresholds, mixed estimator maps, random NaN columns and weights with zeros, and a stream in which "
-        "every realization with positive configured weight fails (only a cvar filter then leaves weight in force).  Every case also "
+        "every realization with positive configured weight fails (only a cvar filter then leaves weight in force).  Merged "
+        "estimation (gradient.merge_realizations, mean estimators): exhaustive over every failure subset x both thresholds for 2x1 and "
+        "2x2 (thorough: also 3x2, 2x3) plus a sampled stream with mostly balanced failure patterns (whole realizations fail, every "
+        "survivor loses equally many perturbations) for which the physically reduced ensemble exists.  The evaluation is issued "
+        "jointly or as a function request followed by a gradient-only request on the same EnsembleEvaluator (cached function "
+        "results; in between the harness tries to overwrite the NaN markers, flags and weights of the returned function results in "
+        "place, which the read-only arrays must refuse).  Merged and sampled cases with a failure are also run as a 'twin' in which every value and perturbation sample "
+        "belonging to a failed realization or failed perturbation is replaced by another number.  Every case also "
         "runs an optimizer step (scripted optimizer, allow_nan on/off, joint or split function/gradient request) and an "
-        "evaluator step.  Non-trivial = at least one failed evaluation; distinct = distinct canonical case.")
+        "evaluator step, whose exit codes and delivered results (FINISHED_EVALUATION) are observed.  "
+        "Non-trivial = at least one failed evaluation; distinct = distinct canonical case.")
 ASSUMPTIONS = [
     "the evaluator output is a table indexed by the (realization, perturbation) labels of the request (label correctness is C06)",
     "perturbations are injected through a sampler plug-in with magnitude 1 and no bounds, so perturbed = x + sample exactly",
     "the least-squares solver is a black box that is run on bit-identical systems in the full and in the reduced runs",
     "with a realization filter every function of the case is mapped to it; the reduced gradient run uses the reported weight row restricted to the survivors as configured weights (DESIGN C03 Reading)",
-    "merge_realizations = False (the merged estimate is C02's known finding)",
+    "merged estimation is judged differentially only (full vs. physically reduced ensemble, full vs. twin), which is independent of known finding C02:merged-gradient-scaled (both runs weight the rows alike); with merge_realizations and no weight on any realization that succeeds for the gradient (0/0, outside the quantifier) the real code raises ValueError from the empty stacked system -- modelled explicitly (mraise), reported as a finding",
     "when all survivors have configured weight zero but a cvar filter gives them weight in force, the physically reduced function run is configured with uniform weights (an all-zero weight vector is rejected by the configuration; CVaR weights do not depend on the configured weights)",
 ]
 TRUSTED = [
@@ -421,11 +429,32 @@ def _g_obs(g):
             "grads": None if g.gradients is None else _grads_obs(g.gradients)}
 
 
-def _calculate(ee, x, split):
+def _scribble(f):
+    """what a careless caller (a reporting observer, say) might do with the function results it was handed: replace the
+    NaN markers by numbers and clear the flags, in place.  The arrays of the results are read-only, so on the unchanged
+    tree every write is refused and nothing changes."""
+    import numpy as np
+    for a in (f.evaluations.objectives, f.evaluations.constraints, f.realizations.objective_weights,
+              f.realizations.constraint_weights, f.realizations.failed_realizations):
+        if a is None:
+            continue
+        try:
+            if a.dtype == np.bool_:
+                a[...] = False
+            else:
+                np.nan_to_num(a, copy=False, nan=0.5)
+                a *= 2.0
+        except (ValueError, TypeError):
+            pass
+
+
+def _calculate(ee, x, split, scribble=False):
     """one evaluation of functions and gradients: jointly, or as a function request followed by a gradient-only
     request at the same point on the same object (the path that re-uses the cached function results)"""
     if split:
         (f,) = ee.calculate(x, compute_functions=True, compute_gradients=False)
+        if scribble:
+            _scribble(f)
         (g,) = ee.calculate(x, compute_functions=False, compute_gradients=True)
         return f, g
     return ee.calculate(x, compute_functions=True, compute_gradients=True)
@@ -495,7 +524,7 @@ def run_impl(case):
     full_ow = None
     split, merge = bool(case.get("split")), bool(case.get("merge"))
     try:
-        f, g = _calculate(ee, x, split)
+        f, g = _calculate(ee, x, split, scribble=True)
         obs["outcome"] = "results"
         obs["f"] = F._result_obs(f, nc)
         obs["g"] = _g_obs(g)
@@ -909,11 +938,14 @@ MANIFEST = {
                    "by the model, are all false).  C03_perturbations_as_if_absent / C03_as_if_absent_gradients: the least-squares "
                    "system of a realization is the system without its failed perturbations, and the combined mean / stddev gradient "
                    "equals that of the ensemble with failed realizations and failed perturbations deleted, for every solver returning "
-                   "one entry per variable.  C03_filters_commute_with_removal: the CVaR and sort-window weights (models of C04/C05) of "
+                   "one entry per variable.  C03_merged_rows_only / C03_as_if_absent_merged: with merge_realizations the rows of the one "
+                   "stacked solve belong to realizations with non-zero normalised weight and to perturbations with a defined difference, and "
+                   "for every weighting+solver of the stacked rows (the current one-sided weighting and a weighted-least-squares repair "
+                   "alike) the merged gradient equals that of the reduced ensemble.  C03_filters_commute_with_removal: the CVaR and sort-window weights (models of C04/C05) of "
                    "the survivors are the weights computed on the reduced ensemble, failed entries exact zeros.  C03_example: "
                    "non-vacuity.  The correspondence is exhaustive over all failure subsets of small ensembles and also runs the real "
                    "code on the physically reduced ensemble."),
-    "level_note": ("All 12 theorems print 'Closed under the global context'; none is partial.  Trusted / modelled-not-verified: the "
+    "level_note": ("All 14 theorems print 'Closed under the global context'; none is partial.  Trusted / modelled-not-verified: the "
                    "least-squares solver is a parameter of the gradient theorems (the SVD solve is C02) and the correspondence compares "
                    "the real solver's outputs on bit-identical systems; in Model/Ensemble.v the realization filters are inputs (observed "
                    "from the real plug-in) and C03_filters_commute_with_removal is about the filter models of Model/Filters.v, which "
@@ -922,7 +954,7 @@ MANIFEST = {
                    "cannot hold all-zero weights; CVaR weights do not depend on them); realization_system / realization_gradients / gradient_of (which rows enter "
                    "the solve) are modelled but not evaluated by the checker, which evaluates normalize, zero_failed and "
                    "combine_gradients on observed per-realization gradients and otherwise compares the real full run with the real "
-                   "reduced run; merged gradients are out of scope (C02 known finding); 0/0 cases (no surviving weight in force) compare flags, gates and exit codes only; that the model is the "
+                   "reduced run; merged_rows / merged_gradient_of are likewise modelled but not evaluated by the checker: for merged estimation Coq checks flags, gates, weights and exit codes against the model and compares the real full run with the real reduced run and the real twin run (the stacked solve itself is C02, incl. its known finding); the gradient-only path after a function request and the results delivered by the steps are covered by the correspondence, not by a theorem; 0/0 cases (no surviving weight in force) compare flags, gates and exit codes only; that the model is the "
                    "code is checked by the correspondence, not proved; float rounding is bridged by the tolerance of DESIGN 2.2."),
     "technique": "Coq proof (list induction over Q with setoid rewriting under ==, solver as a universally quantified function) + exhaustive in-Coq differential correspondence with the real EnsembleEvaluator, full vs. physically reduced ensembles",
     "design_ref": "DESIGN.md section 4, C03",
